@@ -497,6 +497,13 @@ Token *tokenize_string_literal(Token *tok, Type *basety) {
   else
     t = read_utf32_string_literal(tok->loc, tok->loc, basety);
   t->next = tok->next;
+  t->file = tok->file;
+  t->filename = tok->filename;
+  t->line_no = tok->line_no;
+  t->line_delta = tok->line_delta;
+  t->at_bol = tok->at_bol;
+  t->has_space = tok->has_space;
+  t->origin = tok->origin;
   return t;
 }
 
